@@ -1598,7 +1598,7 @@ FORMULAS = {
     'C02': ['ark_decompress', 'min_decompress'],
     'C03': ['ark_compress', 'min_compress', 'ark_eq', 'min_eq', 'ark_affine_eq'],
     'C04': ['min_add', 'min_double', 'min_neg', 'opforms'],
-    'C05': ['min_add', 'min_double', 'opforms'],
+    'C05': ['min_add', 'min_double', 'opforms', 'min_scalar_mul_step', 'min_scalar_mul', 'min_scalar_mul_vartime'],
     'C06': ['ark_decompress', 'min_decompress', 'ark_elligator', 'min_elligator'],
     'C07': ['ark_elligator', 'min_elligator', 'min_add', 'min_hash_to_curve', 'ark_hash_to_curve', 'min_encode_to_curve', 'ark_encode_to_curve'],
     'C08': ['ark_eq', 'min_eq', 'ark_affine_eq', 'ark_is_identity', 'min_is_identity'],
